@@ -285,9 +285,14 @@ def case(ctx, i):
                 t = S.EulerRotation(g3, groups=2, params=params, order=order)
                 a = rng.uniform(-3.0, 3.0, size=(2, 3))
                 a[:, 1] = np.abs(a[:, 1])
+                if rng.integers(0, 4) == 0:  # near gimbal lock: middle angle close to 0 or pi
+                    a[0, 1] = float(rng.choice([1e-4, 1e-3, 1e-2, np.pi - 1e-3, np.pi - 1e-2]))
+                    ctx.bucket("euler_setter_near_gimbal_lock")
                 R = np.stack([L.euler(x, order) for x in a])
                 t.matrix_(torch.tensor(R, dtype=torch.float32))
-                ctx.close("euler_matrix_setter_same_rotation", t.tensor().detach(), R, 1e-4, key=f"setters/EulerRotation.matrix_/{order}", kind=kind)
+                # float32 acos() of the middle angle is conditioned like sqrt(2 eps) = 3.5e-4 rad near 0 and pi;
+                # the statement asks for the same rotation, not for the best-conditioned extraction: 1e-3
+                ctx.close("euler_matrix_setter_same_rotation", t.tensor().detach(), R, 1e-3, key=f"setters/EulerRotation.matrix_/{order}", kind=kind)
         with ctx.guard("EulerRotation.matrix_(2d)", key="exc/EulerRotation.matrix_/2d", kind=kind):
             t2 = S.EulerRotation(g2, groups=2, params=params)
             a = rng.uniform(-3.0, 3.0, size=(2,))
